@@ -130,10 +130,11 @@ namespace xsimd
             for (std::size_t j = 0; j < (size - i); ++j)
             {
                 concat_buffer[j] = other_buffer[i + j];
-                if (j < i)
-                {
-                    concat_buffer[size - 1 - j] = self_buffer[i - 1 - j];
-                }
+            }
+            // the upper i lanes come from self (a single loop bounded by size - i left them unset for i > size / 2)
+            for (std::size_t j = 0; j < i; ++j)
+            {
+                concat_buffer[size - 1 - j] = self_buffer[i - 1 - j];
             }
             return batch<T, A>::load_aligned(concat_buffer);
         }
